@@ -225,6 +225,9 @@ func Compile(module *ir.Module, options *Options) (string, *TranslationInfo, err
 	if err := w.writeModule(); err != nil {
 		return "", nil, fmt.Errorf("hlsl: %w", err)
 	}
+	if w.missingBinding != nil {
+		return "", nil, w.missingBinding
+	}
 
 	info := &TranslationInfo{
 		EntryPointNames:     w.entryPointNames,
